@@ -356,6 +356,10 @@ def run(verbose=False):
         changed += extra.get("changed", [])
     except ImportError:
         pass
+    import translate_sites
+    sites = translate_sites.run(GEN, write_if_changed)
+    changed += sites.get("changed", [])
+    extra["sites"] = sites
     if verbose:
         print("translate: regenerated", changed if changed else "(nothing changed)")
     t["_changed"] = changed
